@@ -336,11 +336,81 @@ def sorted_of(eng, p, args, kws):
     raise Unsupported('sorted')
 
 
+# ---- containers reached through a dynamic value (a reference read back from the store, or an argument)
+#      dyn_seq : Array(addr -> Seq(Val))   content of lists / deques      dyn_set : Array(addr -> Array(Val -> Bool))
+
+def dyn_arrays(p):
+    ex = p.store.extra
+    if 'dyn_seq' not in ex:
+        ex['dyn_seq'] = Const('dyn_seq0', z3.ArraySort(IntSort(), ValSeq))
+        ex['dyn_set'] = Const('dyn_set0', z3.ArraySort(IntSort(), z3.ArraySort(Val, BoolSort())))
+    return ex['dyn_seq'], ex['dyn_set']
+
+
+def is_ref(eng, p, t):
+    s = z3.Solver(); s.set('timeout', 500)
+    s.add(*eng.prune_hyps); s.add(*p.pc); s.add(Not(V.is_VRef(t)))
+    return s.check() == z3.unsat
+
+
+def export_ref(eng, p, ref):
+    """a container created in this call escapes into the store: publish its content under its address"""
+    c = p.heap[ref.oid]
+    ds, dset = dyn_arrays(p)
+    if c[0] in ('deque', 'slist'):
+        p.store.extra['dyn_seq'] = Store(ds, IntVal(ref.oid), c[1])
+    elif c[0] == 'list':
+        vals = [eng.to_val(p, x) for x in c[1]]
+        p.store.extra['dyn_seq'] = Store(ds, IntVal(ref.oid), Concat(*[Unit(v) for v in vals]) if len(vals) > 1 else (Unit(vals[0]) if vals else Empty(ValSeq)))
+    elif c[0] == 'set':
+        p.store.extra['dyn_set'] = Store(dset, IntVal(ref.oid), c[1])
+    else:
+        raise Unsupported(f'escaping container {c[0]}')
+    p.ghost.setdefault('escaped', set()); p.ghost['escaped'] = set(p.ghost['escaped']) | {ref.oid}
+
+
 def len_dyn(eng, p, x):
-    raise Unsupported('len of dynamic value')
+    eng.oblige(p, 'type.container', V.is_VRef(x.t), 'type')
+    ds, _ = dyn_arrays(p)
+    return SInt(Length(Select(ds, V.addr(x.t))))
+
+
+def dyn_getitem(eng, p, x, idx):
+    ds, _ = dyn_arrays(p)
+    s = Select(ds, V.addr(x.t))
+    i = norm_index(eng, p, idx, Length(s), 'container')
+    return eng.from_val(s[i])
+
+
+def dyn_contains(eng, p, x, item):
+    eng.need_canon = True
+    _, dset = dyn_arrays(p)
+    return Select(Select(dset, V.addr(x.t)), canon(eng.to_val(p, item)))
 
 
 def dyn_method(eng, p, o, name, args, kws):
+    eng.oblige(p, 'type.container', V.is_VRef(o.t), 'type')
+    a = V.addr(o.t)
+    ds, dset = dyn_arrays(p)
+    cur = Select(ds, a)
+    if name == 'append':
+        p.store.extra['dyn_seq'] = Store(ds, a, Concat(cur, Unit(eng.to_val(p, args[0])))); return [(p, None)]
+    if name == 'clear':
+        p.store.extra['dyn_seq'] = Store(ds, a, Empty(ValSeq)); return [(p, None)]
+    if name == 'popleft':
+        q = p.fork(); q.pc.append(Length(cur) == 0)
+        out = []
+        if eng.feasible(q.pc):
+            q.exc = ExcV('IndexError', (), origin='deque.popleft'); out.append((q, None))
+        p.pc.append(Length(cur) > 0)
+        if eng.feasible(p.pc):
+            p.store.extra['dyn_seq'] = Store(ds, a, SubSeq(cur, 1, Length(cur) - 1))
+            out.append((p, eng.from_val(cur[0])))
+        return out
+    if name == 'add':
+        eng.need_canon = True
+        p.store.extra['dyn_set'] = Store(dset, a, Store(Select(dset, a), canon(eng.to_val(p, args[0])), BoolVal(True)))
+        return [(p, None)]
     raise Unsupported(f'method {name} on dynamic value')
 
 
